@@ -107,18 +107,31 @@ def check_loop(ctx, w):
            tr.get('offset') == [('=', 'tell(stream)')] and tr.get('byte') == [('=', 'read(stream,1)')], got=(tr.get('offset'), tr.get('byte')))
     whiles = [n for n in ast.walk(f.node) if isinstance(n, ast.While)]
     ok = len(whiles) == 1
-    order = []
-    if ok:
-        for st in whiles[0].body:
-            s = U(st).split('\n')[0]
-            order.append(s)
-    want = ['offset = stream.tell()', 'byte = stream.read(1)', 'if not byte:', 'op = ord(byte)',
+    # one iteration, over paths: position then opcode byte; an empty read leaves the loop with nothing recorded; otherwise the
+    # operation is decoded, its operands parsed by the dispatch entry of that opcode, and recorded -- in this order
+    want = ['offset = stream.tell()', 'byte = stream.read(1)', 'op = ord(byte)',
             "op_name = DW_OP_opcode2name.get(op, 'OP:0x%x' % op)", 'arg_parser = self._dispatch_table[op]', 'args = arg_parser(stream)',
             'parsed.append(DWARFExprOp(op=op, op_name=op_name, args=args, offset=offset))']
-    ctx.ob('W-LOOP', f.construct, 'loop body order', order == want, got=order, expected=want,
+    seen = set()
+    why = None
+    for p in (paths.enum_paths(whiles[0].body) if ok else []):
+        ev = expr.path_events(p, env)
+        stm = [x[1] for x in ev if x[0] == 's']
+        cs = [x[1] for x in ev if x[0] == 'c']
+        empty = expr.CP('T(byte)', False)
+        if cs == [empty]:
+            seen.add('end')
+            good = stm == want[:2] and ev[-1] == ('end', 'break') and ev.index(('c', cs[0])) == 2
+        elif cs == [expr.neg(empty)]:
+            seen.add('op')
+            good = stm == want and ev[-1] == ('end', 'fall')
+        else:
+            good = False
+        if not good:
+            ok, why = False, ev
+    ctx.ob('W-LOOP', f.construct, 'loop body order', ok and seen == {'end', 'op'}, got=why or sorted(seen), expected=want,
            msg='parse loop no longer records (offset, opcode, name, args) per operation in stream order')
-    ctx.ob('W-LOOP', f.construct, 'ends on empty read', ok and any(isinstance(s, ast.If) and expr.cond_str(s.test, env) == '!T(byte)' and
-           any(isinstance(x, ast.Break) for x in s.body) for s in whiles[0].body))
+    ctx.ob('W-LOOP', f.construct, 'ends on empty read', ok and 'end' in seen)
     g = w.model.func(MOD, 'DWARFExprParser.__init__')
     tr = expr.assign_trace(g.node, expr.FEnv(g.node, params=('structs',)))
     ctx.ob('W-LOOP', g.construct, 'dispatch table built from the unit structs', tr.get('self._dispatch_table') == [('=', '_init_dispatch_table(structs)')],
